@@ -111,7 +111,7 @@ func c03Gen(tier string, seed int64) []core.Case {
 			k++
 		}
 	}
-	return cs
+	return runVariants(cs, 9, "keygen")
 }
 
 // captureFirstCommitments hooks the wire: V_i0 is the first point of party i's round-2 decommitment.
@@ -159,9 +159,11 @@ func c03Run(c core.Case, env *core.Env) core.Result {
 	r := res(c)
 	curve, n, t := c.P.Str("curve"), c.P.Int("n"), c.P.Int("t")
 	ids := keyIDs(c.P.Str("pat"), n, curve, env.Seed)
+	defer setDefaultCurve(c.P, curve)()
 	var w *sim.World
 	if isEd(curve) {
 		w = sim.EDDSAKeygen(env.Seed+int64(len(c.ID)), ids, t)
+		w.ShareObjects = c.P.Bool("objects")
 	} else {
 		pre, err := PreParams(env.Repo)
 		if err != nil {
@@ -169,6 +171,7 @@ func c03Run(c core.Case, env *core.Env) core.Result {
 			return r
 		}
 		w = sim.ECDSAKeygen(env.Seed+int64(len(c.ID)), ids, t, pre[:n])
+		w.ShareObjects = c.P.Bool("objects")
 	}
 	commits := captureFirstCommitments(w)
 	w.Run(schedByName(c.P.Str("sched"), w), nil)
@@ -346,7 +349,7 @@ func c01Gen(tier string, seed int64) []core.Case {
 			k++
 		}
 	}
-	return cs
+	return runVariants(cs, 7, "sign")
 }
 
 // forcedS names the values the un-normalised sum of the signature shares is steered to (see c01ForcedS).
@@ -534,7 +537,9 @@ func c01Run(c core.Case, env *core.Env) core.Result {
 	digest := digestOf(c.P.Str("digest"), env.Seed, c.ID)
 	full := c.P.Int("full")
 	before := snapshotECDSA(sel)
+	defer setDefaultCurve(c.P, "secp256k1")()
 	w := sim.ECDSASigning(env.Seed+int64(len(c.ID)), sel, t, digest, sim.SignOpts{FullBytesLen: full, Shuffle: c.P.Bool("shuffle")})
+	w.ShareObjects = c.P.Bool("objects")
 	w.Run(schedByName(c.P.Str("sched"), w), nil)
 	noteRun(&r, w)
 	outs, missing := sigOuts(w)
@@ -668,7 +673,7 @@ func c02Gen(tier string, seed int64) []core.Case {
 			k++
 		}
 	}
-	return cs
+	return runVariants(cs, 9, "sign")
 }
 
 func c02Run(c core.Case, env *core.Env) core.Result {
@@ -687,7 +692,9 @@ func c02Run(c core.Case, env *core.Env) core.Result {
 	msg := edMessage(c.P.Str("msg"), env.Seed, c.ID)
 	full := c.P.Int("full")
 	beforeKeys := snapshotEDDSA(sel)
+	defer setDefaultCurve(c.P, "ed25519")()
 	w := sim.EDDSASigning(env.Seed+int64(len(c.ID)), sel, t, msg, sim.SignOpts{FullBytesLen: full, Shuffle: c.P.Bool("shuffle")})
+	w.ShareObjects = c.P.Bool("objects")
 	w.Run(schedByName(c.P.Str("sched"), w), nil)
 	noteRun(&r, w)
 	outs, missing := sigOuts(w)
